@@ -229,9 +229,17 @@ pub fn cnf_lines(rng: &mut Rng, idx: u64, maxvars: usize, maxops: usize) -> Vec<
                             None => g.coin(),
                         };
                         let l = Literal::new(VarLabel::new_usize(v), p);
-                        h.decide(l);
-                        m.set(l.label(), l.polarity());
-                        cmds.push(format!("d{}{}", if p { 'p' } else { 'n' }, v));
+                        // one step in four: the literal enters the partial model WITHOUT being
+                        // announced to the hasher (the model handed to `hash` is the caller's: it
+                        // may hold propagated literals the hasher was never told about)
+                        if g.below(4) == 0 {
+                            m.set(l.label(), l.polarity());
+                            cmds.push(format!("m{}{}", if p { 'p' } else { 'n' }, v));
+                        } else {
+                            h.decide(l);
+                            m.set(l.label(), l.polarity());
+                            cmds.push(format!("d{}{}", if p { 'p' } else { 'n' }, v));
+                        }
                     }
                     _ => {
                         cmds.push("h".to_string());
